@@ -57,7 +57,8 @@ def _locate_require_file(p, file_path, lua_path=None):
             # (A relative entry stays relative to the requiring file even
             # when the substitution makes it begin with a path separator,
             # as "?/init.lua" does for an empty require string.)
-            candidate = rel_path_base + os.path.sep + candidate
+            candidate = os.path.join(rel_path_base,
+                                     candidate.lstrip(os.path.sep))
         if os.path.isfile(candidate):
             return candidate
     return None
